@@ -27,7 +27,7 @@ func ProfileFor(prop string) *Profile {
 		p.LateFailBias = 0.25
 	case "C02":
 		p.MaxIdx = 3
-		p.AltKeyStyles, p.AltKeyProb = []string{"numeric"}, 0.3
+		p.AltKeyStyles, p.AltKeyProb = []string{"numeric"}, 0.4
 		p.RangeProb = 0.8
 		w["put"], w["update"], w["delete"], w["get"] = 4, 2, 1.5, 0.5
 		w["query"], w["scan"] = 5, 3
